@@ -384,6 +384,15 @@ impl IoLoop {
                     (HandshakeState::Secure(_, _), Error::UnexpectedSocketClose) => {
                         InvalidCredentialsSnafu.fail()
                     }
+                    // The server refused us with a Close (e.g., bad vhost) and hung up
+                    // without waiting for our CloseOk: its Close is the reason.
+                    (HandshakeState::ServerClosing(close), Error::UnexpectedSocketClose) => {
+                        ServerClosedConnectionSnafu {
+                            code: close.reply_code,
+                            message: close.reply_text,
+                        }
+                        .fail()
+                    }
                     (_, err) => Err(err),
                 };
             }
@@ -504,6 +513,14 @@ impl IoLoop {
                         // CloseOk; we are done either way
                         Err(Error::UnexpectedSocketClose)
                             if matches!(state, ConnectionState::ClientClosed) => {}
+                        // ... and a server that hangs up right behind its own Close, without
+                        // waiting for our CloseOk, has told us why the connection ended:
+                        // there is nobody left to send the CloseOk to.
+                        Err(Error::UnexpectedSocketClose)
+                            if matches!(state, ConnectionState::ServerClosing(_)) =>
+                        {
+                            self.inner.outbuf.clear();
+                        }
                         other => other?,
                     }
                 }
